@@ -216,9 +216,13 @@ side_by_side_tiff_start(struct Storage* self_) noexcept
                 .is_ref = 1,
             };
             CHECK(self->tiff);
-            state = self->tiff->set(self->tiff, &props);
+            // The inner writer is driven directly, not through the HAL, so
+            // its device state has to be maintained here. Without it the
+            // writer never sees itself running and its stop() neither
+            // terminates the directory chain nor closes the file.
+            state = self->tiff->state = self->tiff->set(self->tiff, &props);
             CHECK(state == DeviceState_Armed);
-            state = self->tiff->start(self->tiff);
+            state = self->tiff->state = self->tiff->start(self->tiff);
             CHECK(state == DeviceState_Running);
         }
 
@@ -240,7 +244,8 @@ side_by_side_tiff_stop(struct Storage* self_) noexcept
         struct SideBySideTiff* self =
           containerof(self_, struct SideBySideTiff, storage);
         CHECK(self->tiff);
-        CHECK(self->tiff->stop(self->tiff) == DeviceState_Armed);
+        CHECK((self->tiff->state = self->tiff->stop(self->tiff)) ==
+              DeviceState_Armed);
     } catch (const std::exception& e) {
         LOGE("Exception: %s\n", e.what());
         return DeviceState_AwaitingConfiguration;
@@ -285,8 +290,8 @@ side_by_side_tiff_append(struct Storage* self_,
         struct SideBySideTiff* self =
           containerof(self_, struct SideBySideTiff, storage);
         CHECK(self->tiff);
-        CHECK(self->tiff->append(self->tiff, frame, nbytes) ==
-              DeviceState_Running);
+        CHECK((self->tiff->state = self->tiff->append(
+                 self->tiff, frame, nbytes)) == DeviceState_Running);
     } catch (const std::exception& e) {
         LOGE("Exception: %s\n", e.what());
         return side_by_side_tiff_stop(self_);
